@@ -970,6 +970,26 @@ namespace
                   want = lo;
                   ok = at < static_cast<long>(out.size()) && out[at] >= lo - slack && out[at] <= hi + slack;
                 }
+              else if (k == "sameweight")
+                {
+                  // two interpolated quantities of one point: value at `at` between cell and col2, value at `at2` between col3 and col4;
+                  // both are convex combinations with the same weight (the section fraction of the point)
+                  const double a0 = cell, a1 = c[e["col2"].GetUint()], b0 = c[e["col3"].GetUint()], b1 = c[e["col4"].GetUint()];
+                  const long at2 = e["at2"].GetInt64();
+                  if (a0 != a1 && b0 != b1 && at < static_cast<long>(out.size()) && at2 < static_cast<long>(out.size()))
+                    {
+                      const double wa = (out[at] - a0) / (a1 - a0), wb = (out[at2] - b0) / (b1 - b0);
+                      want = wb;
+                      ok = std::fabs(wa - wb) <= (e.HasMember("tol") ? eval(e["tol"]) : 1e-9);
+                      if (!ok)
+                        {
+                          mism(k, "row [" + fmt(c[0]) + "," + fmt(c[1]) + "," + fmt(c[2]) + "," + fmt(c[3]) + "]: two quantities of one point are interpolated with different weights between the neighbouring sections",
+                               at, fmt(wa), fmt(wb));
+                          continue;
+                        }
+                    }
+                  else ok = true;
+                }
               else if (k == "tol")
                 {
                   const double rel = e.HasMember("rel") ? eval(e["rel"]) : 0., abs_ = e.HasMember("abs") ? eval(e["abs"]) : 0.;
